@@ -89,6 +89,11 @@ def handle : List String → String
     match l?, m? with
     | some l, some m => ofBool (appliesTo l m)
     | _, _ => "bad-op"
+  | ["resprules", kind] =>
+    -- does the --response-header list touch a response of this kind (`Model.C16.rulesApplyTo`)
+    match ResponseKind.ofName kind with
+    | some k => ofBool (rulesApplyTo k)
+    | none => "bad-op"
   | ["csv", raw] =>
     -- `encoding/csv` Reader.Read (default settings) on the value of a list flag
     match bytesOfHex raw with
